@@ -3270,3 +3270,53 @@ mod tests {
         }
     }
 }
+
+/// verification hook (H2): the connection event loop of [remote] generic over the transport.
+///
+/// [remote] itself is tied to TcpListener/TcpStream. This is a replica of its per-connection loop
+/// body that calls the same process_file_context / process_incoming_text_message functions.
+/// Returns the number of loop iterations and the reason why the loop ended.
+#[cfg(adlt_verif)]
+pub fn verif_serve<T: Read + Write>(
+    log: &slog::Logger,
+    websocket: &mut WebSocket<T>,
+    max_iterations: usize,
+) -> (usize, &'static str) {
+    let mut file_context: Option<FileContext> = None;
+    let mut iterations = 0usize;
+    let reason = loop {
+        iterations += 1;
+        if iterations > max_iterations {
+            break "max_iterations";
+        }
+        if let Some(ref mut fc) = file_context {
+            let r = process_file_context(log, fc, websocket);
+            if r.is_err() {
+                break "process_file_context_err";
+            }
+        }
+        let msg = websocket.read_message();
+        if let Err(err) = msg {
+            match err {
+                tungstenite::Error::Io(ref e)
+                    if e.kind() == std::io::ErrorKind::WouldBlock
+                        || e.kind() == std::io::ErrorKind::TimedOut =>
+                {
+                    continue;
+                }
+                _ => {
+                    break "read_message_err";
+                }
+            }
+        }
+        match msg.unwrap() {
+            Message::Text(t) => process_incoming_text_message(log, t, &mut file_context, websocket),
+            Message::Close(_) => {
+                break "close_frame";
+            }
+            _ => {}
+        }
+    };
+    let _ = websocket.write_pending();
+    (iterations, reason)
+}
